@@ -8,9 +8,9 @@ C09 — tail calls are free and invisible.
    earlier iterations observe, as the same function evaluated without the optimisation."
 
 The model is `Model/Gen.lean` (generator) + `Model/VM.lean` (VM), following /repo with the
-fixes fc05fc7 (fresh function scope per iteration), 5554b40 (tail flag cleared for let
-initialisers, array elements, …) and c9a2ccf (a self call with the wrong number of operands
-is an ordinary call). Tail position is defined independently in `Spec/TailPos.lean`.
+fixes fc05fc7 (fresh function scope per iteration), 5554b40 + 8aa1632 (tail flag cleared for let
+initialisers, array elements, assignment targets, …), c9a2ccf (a self call with the wrong
+number of operands is an ordinary call) and d5acb02 (C09-02: guard in front of the tail sequence). Tail position is defined independently in `Spec/TailPos.lean`.
 
 Proved here, for programs of every size, every nesting of the contexts and every depth:
 
@@ -34,6 +34,24 @@ Proved here, for programs of every size, every nesting of the contexts and every
                                           (that is C04's theorem about generated code; here it is a
                                           hypothesis, checked dynamically by the `probe` oracle of
                                           channel `tail`).
+     `bodyBalanced_of_matched`            that hypothesis DERIVED from C04's verifier (`Bal.tail_site_depths`:
+                                          in any verified function a tail sequence stands under exactly
+                                          k+1 scopes and, behind `PrepareCall`, the formals' worth of
+                                          operands) for body stretches that are matched by a run of the
+                                          stack-effect machine (`MatchedBody`);
+     `tail_call_constant_space`           the induction without the balance hypothesis (what `MatchedBody`
+                                          still assumes per iteration is the refinement VM.exec ⊑ Bal.CStep);
+     `verified_of_generated`              every `fn`/`defn` the model generator makes is verified (C04
+                                          `gen_balanced`), so `MatchedBody.verified` holds for them.
+     `tail_guard_passes`                  (fix C09-02) the sequence starts with a guard that looks the
+                                          name up before the operands; it lets the jump happen exactly
+                                          when the name still denotes the function object that is running;
+     `tail_call_falls_back_to_ordinary_call`
+                                          otherwise one step leads, with nothing but `pc` changed, to the
+                                          ordinary `CallExpr` of the same call emitted behind the jump.
+                                          The body stretch of `BodyBalanced` therefore contains a passed
+                                          guard: constant space is claimed for the iterations in which the
+                                          name still denotes the running function, and only for those.
  (d) `TcoTransparent`                     full statement (VM model = reference evaluator), NOT proved;
      `tco_transparent_partial`            the parts proved: the continuation is never dropped
                                           (only tail positions jump), the tail sequence changes
@@ -46,6 +64,8 @@ Proved here, for programs of every size, every nesting of the contexts and every
 -/
 import ZygoVerif.Proofs.Tail
 import ZygoVerif.Proofs.TailVM
+import ZygoVerif.Proofs.TailSite
+import ZygoVerif.Proofs.GenBalancedAll
 import ZygoVerif.Model.LegacyTail
 import ZygoVerif.Spec.RefEval
 namespace ZygoVerif.C09
@@ -56,6 +76,22 @@ open ZygoVerif.Core ZygoVerif.VM ZygoVerif.TailSpec ZygoVerif.Tail ZygoVerif.Tai
 /-- `buildSexpFun` compiles a body as a `begin` with `Tail` on, no extra scope, under the
 function's own name. -/
 def bodyCtx (f : String) (known : List (String × Nat)) : Ctx := ⟨true, 0, f, known⟩
+
+/-- What the generator emits for a self call in tail position (after fix C09-02): the guard,
+the operands, the tail sequence proper (`TailVM.tailSeq`: `PrepareCall`, `RemoveScope × (k+1)`,
+`Goto 0`) and, behind the jump, the ordinary call the guard skips to. -/
+def selfTailCode (f : String) (args : List Expr) (k : Nat) (argcode : List Instr) : List Instr :=
+  [Instr.tailGuard f (argcode.length + k + 4)] ++ argcode ++ tailSeq f args.length k ++ [Instr.callExpr (.sym f) args]
+
+/-- the guard's `skip` is exactly the distance to the ordinary call -/
+theorem selfTailCode_skip (f : String) (args : List Expr) (k : Nat) (argcode : List Instr) :
+    (selfTailCode f args k argcode)[argcode.length + k + 4]? = some (Instr.callExpr (.sym f) args) := by
+  have hlen : ([Instr.tailGuard f (argcode.length + k + 4)] ++ argcode ++ tailSeq f args.length k).length
+      = argcode.length + k + 4 := by
+    simp [tailSeq]; omega
+  unfold selfTailCode
+  rw [List.getElem?_append_right (by omega), hlen]
+  simp
 
 /-- (b) The tail sequence pops exactly the scopes open at that point: those open when the
 enclosing form `e` was entered (`k0`), those crossed inside it (`k`), and the function scope.
@@ -70,7 +106,7 @@ theorem tail_sequence_layout {isFn : Nat → Bool} {f : String} {kn : List (Stri
     (hc : compile isFn ⟨true, k0, f, kn⟩ e gs = .ok r) :
     ∃ gs1 : GS,
       (ArityOk ((kn.lookup f).bind fun t => gs1.fns[t]?) args.length = true →
-        ∃ argcode, Seg r.1.1 (argcode ++ tailSeq f args.length (k0 + k))) ∧
+        ∃ argcode, Seg r.1.1 (selfTailCode f args (k0 + k) argcode)) ∧
       (ArityOk ((kn.lookup f).bind fun t => gs1.fns[t]?) args.length = false →
         Seg r.1.1 [Instr.callExpr (.sym f) args]) := by
   obtain ⟨gs1, r1, h1, hseg⟩ := tailAt_emits hpos hc
@@ -79,7 +115,7 @@ theorem tail_sequence_layout {isFn : Nat → Bool} {f : String} {kn : List (Stri
     obtain ⟨argcode, hcode⟩ := self_call_tail h1 harity
     refine ⟨argcode, ?_⟩
     rw [hcode] at hseg
-    simpa [tailSeq, List.append_assoc] using hseg
+    simpa [selfTailCode, tailSeq, List.append_assoc] using hseg
   · intro harity
     rw [self_call_wrong_arity h1 harity] at hseg
     exact hseg
@@ -92,7 +128,7 @@ theorem tail_position_gets_tail_sequence {isFn : Nat → Bool} {f : String} {kn 
     (hpos : TailAt k (.begin_ body) (.call (.sym f) args))
     (harity : ∀ gs1 : GS, ArityOk ((kn.lookup f).bind fun t => gs1.fns[t]?) args.length = true)
     (hc : compileBegin isFn (bodyCtx f kn) body gs = .ok r) :
-    ∃ argcode, Seg r.1.1 (argcode ++ tailSeq f args.length k) := by
+    ∃ argcode, Seg r.1.1 (selfTailCode f args k argcode) := by
   have hne : body ≠ [] := by
     intro h; subst h
     cases hpos with
@@ -130,7 +166,7 @@ theorem self_call_dichotomy {isFn : Nat → Bool} {f : String} {kn : List (Strin
     (hpos : Inline (.begin_ body) (.call (.sym f) args))
     (harity : ∀ gs1 : GS, ArityOk ((kn.lookup f).bind fun t => gs1.fns[t]?) args.length = true)
     (hc : compileBegin isFn (bodyCtx f kn) body gs = .ok r) :
-    (∃ k argcode, TailAt k (.begin_ body) (.call (.sym f) args) ∧ Seg r.1.1 (argcode ++ tailSeq f args.length k)) ∨
+    (∃ k argcode, TailAt k (.begin_ body) (.call (.sym f) args) ∧ Seg r.1.1 (selfTailCode f args k argcode)) ∨
     (NonTailAt (.begin_ body) (.call (.sym f) args) ∧ Seg r.1.1 [Instr.callExpr (.sym f) args]) := by
   rcases inline_dichotomy hpos with ⟨k, hk⟩ | hn
   · obtain ⟨argcode, h⟩ := tail_position_gets_tail_sequence hk harity hc
@@ -146,6 +182,8 @@ def exBody : List Expr :=
     (.let_ false [("x", .int 1)]
       [.newScope [.sym "x", .and_ [.bool true, .call (.sym "f") [.call (.sym "-") [.sym "n", .int 1], .call (.sym "+") [.sym "a", .sym "n"]]]]])]
 
+def exArgs : List Expr := [.call (.sym "-") [.sym "n", .int 1], .call (.sym "+") [.sym "a", .sym "n"]]
+
 def exCall : Expr := .call (.sym "f") [.call (.sym "-") [.sym "n", .int 1], .call (.sym "+") [.sym "a", .sym "n"]]
 
 /-- the self call of `exBody` is in tail position under two scopes -/
@@ -158,7 +196,7 @@ example : TailAt 2 (.begin_ exBody) exCall :=
 
 /-- and the generator accepts the body: the hypotheses of the theorems above are satisfiable. -/
 example : ∃ r, compileBegin (fun _ => false) (bodyCtx "f" []) exBody ⟨[], [], [], []⟩ = .ok r ∧
-    r.1.1.length = 23 ∧ r.1.1 = r.1.1.take 16 ++ tailSeq "f" 2 2 ++ r.1.1.drop 21 := ⟨_, rfl, by decide, rfl⟩
+    r.1.1.length = 25 ∧ r.1.1 = r.1.1.take 14 ++ selfTailCode "f" exArgs 2 (r.1.1.drop 15 |>.take 2) ++ r.1.1.drop 23 := ⟨_, rfl, by decide, rfl⟩
 
 /-- `(cond (f (- n 1)) 1 2)`: the cond test is reached by a non-tail step -/
 example : NonTailAt (.begin_ [.cond [(.call (.sym "f") [.sym "n"], .int 1)] (.int 2)]) (.call (.sym "f") [.sym "n"]) :=
@@ -274,6 +312,241 @@ theorem tail_call_constant_space_partial (body : St → St → Prop) (f np d l a
     exact this
 
 
+/-! ### (c) with the balance of the body derived from C04 -/
+
+/-- a data-stack cell as the balance checker sees it: a stack-mark or an ordinary value -/
+def cellOf : Option Val → Bal.Cell
+  | some (.mark l) => .mark l
+  | _ => .val
+
+/-- the state of the stack-effect machine (`Model/StackEffect.lean`) a VM state stands for: the
+pc, the kinds of the cells on the data stack, the depths of the scope and address stacks -/
+def absC (s : St) : Bal.CState := ⟨s.pc.toNat, s.data.map cellOf, s.linear.length, s.addr.length⟩
+
+/-- entry `f` of the function table as the balance checker sees it -/
+def fnB (s : St) (f : Nat) : Bal.Fn :=
+  { kind := .fn, nformals := (fnOf s f).params.length, varargs := (fnOf s f).varargs, nfixed := (fnOf s f).nargs,
+    code := Bal.B s.loops (fnOf s f).code }
+
+/-- The body stretch `E → T` of one activation of `f` as the VM runs it (`vmBody`), **matched by
+a run of the stack-effect machine** of the same function: the function is one the verifier
+accepts (C04 `gen_balanced_functions`: every template the generator makes is), it was entered
+with its `np` formals' worth of values on top, it is still the same function at `T`, the
+abstraction of `T` is reachable from the abstraction of `E` in the stack-effect machine, and
+`PrepareCall` at the tail site succeeds as a step of that machine. `run` and `prep` are the
+refinement "every `VM.exec` step of an activation is a `Bal.CStep`" (calls as one step, by the
+calling contract) — the part that is NOT proved for the VM model as a whole; `prep_of_fixed`
+below proves `prep` for functions without a rest parameter. -/
+structure MatchedBody (f np : Nat) (E T : St) : Prop where
+  vm : vmBody f E T
+  verified : ∃ ann, Bal.verify (fnB E f) ann = true
+  arity : (fnOf E f).params.length = np
+  args : ∃ D, (absC E).data = List.replicate np .val ++ D
+  same : fnOf T f = fnOf E f ∧ T.loops = E.loops
+  run : Bal.Reach (fnB E f) (absC E) (absC T)
+  prep : ∀ x nargs, (fnOf T T.curfunc).code[T.pc.toNat]? = some (.prepareCall x nargs) →
+    ∃ data', (∀ n, (exec (n + 1) (.prepareCall x nargs)).run T = (.ok (), { T with pc := T.pc + 1, data := data' })) ∧
+      Bal.CStep (fnB E f) (absC T) (absC { T with pc := T.pc + 1, data := data' })
+
+theorem B_tailSeq (T : List LoopRec) (x : String) (nargs k : Nat) :
+    Bal.B T (tailSeq x nargs k) = [.prepareCall nargs] ++ List.replicate (k + 1) .removeScope ++ [.goto 0] := by
+  simp [tailSeq, Bal.B, Bal.toB, List.map_replicate]
+
+/-- **C09's balance hypothesis, discharged by C04.** For a body stretch that is matched by the
+stack-effect machine, `BodyBalanced` holds — from `Bal.tail_site_depths` (any verified
+function: at a tail sequence `k+1` scopes are open above the caller's, behind `PrepareCall`
+exactly the formals' worth of operands lie on the caller's data). -/
+theorem bodyBalanced_of_matched (f np d l a : Nat) : BodyBalanced (MatchedBody f np) f np d l a := by
+  intro E T hE hm
+  obtain ⟨hreach, hcur, haddr, x, nargs, k, p, rest, hat⟩ := hm.vm
+  obtain ⟨ann, hv⟩ := hm.verified
+  obtain ⟨D, hD⟩ := hm.args
+  obtain ⟨h1, h2, h3⟩ := hat.code.head
+  have hfetch : (fnOf T T.curfunc).code[T.pc.toNat]? = some (.prepareCall x nargs) := by
+    rw [hat.pc]; simpa [tailSeq] using h1
+  obtain ⟨data', hprep, hcstep⟩ := hm.prep x nargs hfetch
+  -- the tail sequence sits in the checker's listing at the abstract pc
+  have hcode : Bal.CodeAtB (fnB E f).code (absC T).pc
+      ([.prepareCall nargs] ++ List.replicate (k + 1) .removeScope ++ [.goto 0]) := by
+    obtain ⟨pre, post, hc, hpl⟩ := hat.code
+    have hcodeT : (fnOf E f).code = pre ++ (tailSeq x nargs k ++ rest) ++ post := by
+      rw [← hm.same.1, ← hcur]; exact hc
+    intro i hi
+    have hpc : (absC T).pc = pre.length := by
+      show T.pc.toNat = _
+      rw [hat.pc, hpl]; simp
+    rw [hpc]
+    show (Bal.B E.loops (fnOf E f).code)[pre.length + i]? = _
+    rw [hcodeT]
+    simp only [Bal.B, List.map_append]
+    rw [List.append_assoc, List.getElem?_append_right (by simp)]
+    simp only [List.length_map, Nat.add_sub_cancel_left]
+    rw [List.append_assoc, List.getElem?_append_left (by
+      have := B_tailSeq E.loops x nargs k
+      simp only [Bal.B] at this
+      rw [this]; exact hi)]
+    have := B_tailSeq E.loops x nargs k
+    simp only [Bal.B] at this
+    rw [this]
+  have hE0 : (absC E).pc = 0 := by show E.pc.toNat = 0; rw [hE.pc]; rfl
+  have hent : (fnB E f).entryCount = np := hm.arity
+  obtain ⟨hsc, _, _, hnext⟩ := Bal.tail_site_depths (fnB E f) ann hv D l a (absC E) (absC T) hE0
+    (by rw [hent]; exact hD) hE.scopes hE.addr hm.run nargs k hcode
+  obtain ⟨_, hdata', _, _⟩ := hnext _ hcstep
+  have hlenE : d + np = np + D.length := by
+    have := congrArg List.length hD
+    simp only [absC, List.length_map, List.length_append, List.length_replicate] at this
+    rw [← this, hE.data]
+  have hlenT : data'.length = np + D.length := by
+    have := congrArg List.length hdata'
+    simp only [absC, List.length_map, List.length_append, List.length_replicate, hent] at this
+    exact this
+  have hlin : T.linear.length = l + (k + 1) := hsc
+  refine ⟨hcur, x, nargs, k, T.linear.drop (k + 1), data', ⟨⟨p, rest, hat⟩, hprep, by omega,
+    ⟨T.linear.take (k + 1), (List.take_append_drop _ _).symm, by rw [List.length_take]; omega⟩,
+    by rw [haddr]; exact hE.addr⟩, by rw [List.length_drop]; omega⟩
+
+/-- **(c) without the balance hypothesis**: by induction on the number of iterations, with the
+balance of every body stretch derived from the verifier (C04) instead of assumed. What is
+still assumed, per iteration, is inside `MatchedBody`: that the VM's run of the stretch is a
+run of the stack-effect machine (the refinement of `VM.exec` by `Bal.CStep`). The full
+statement `TailCallConstantSpace` needs that refinement for every reachable state. -/
+theorem tail_call_constant_space (f np d l a : Nat) :
+    ∀ n E E', Entry E f np d l a → Iterations (MatchedBody f np) np d a n E E' → Entry E' f np d l a :=
+  tail_call_constant_space_partial (MatchedBody f np) f np d l a (bodyBalanced_of_matched f np d l a)
+
+/-- the `prep` field of `MatchedBody` for a function without a rest parameter: `PrepareCall`
+leaves the operands alone, which is the step `prepareFix` of the stack-effect machine -/
+theorem prep_of_fixed (f : Nat) (E T : St) (hcur : T.curfunc = f) (hsame : fnOf T f = fnOf E f ∧ T.loops = E.loops)
+    (hpc : 0 ≤ T.pc) (hv : (fnOf T T.curfunc).varargs = false) (x : String) (nargs : Nat)
+    (hf : (fnOf T T.curfunc).code[T.pc.toNat]? = some (.prepareCall x nargs)) :
+    ∃ data', (∀ n, (exec (n + 1) (.prepareCall x nargs)).run T = (.ok (), { T with pc := T.pc + 1, data := data' })) ∧
+      Bal.CStep (fnB E f) (absC T) (absC { T with pc := T.pc + 1, data := data' }) := by
+  refine ⟨T.data, fun n => by simpa using exec_prepareCall_fixed n T x nargs hv, ?_⟩
+  have hcode : (fnB E f).code[(absC T).pc]? = some (.prepareCall nargs) := by
+    show (Bal.B E.loops (fnOf E f).code)[T.pc.toNat]? = _
+    rw [← hsame.1, ← hcur]
+    simp only [Bal.B, List.getElem?_map, hf]
+    rfl
+  have hva : (fnB E f).varargs = false := by
+    show (fnOf E f).varargs = false
+    rw [← hsame.1, ← hcur]; exact hv
+  have := Bal.CStep.prepareFix (f := fnB E f) (absC T) (.prepareCall nargs) nargs hcode rfl hva
+  have hst : absC { T with pc := T.pc + 1, data := T.data } = { absC T with pc := (absC T).pc + 1 } := by
+    simp only [absC]
+    congr 1
+    omega
+  rw [hst]
+  exact this
+
+/-- the `verified` field of `MatchedBody` for every function object that has the signature and the
+code of a template the model generator produced (closures are copies of their template): C04's
+`gen_balanced` — by induction over the expression grammar, every `fn`/`defn` body of the covered
+grammar (`Bal.okLs`: all core forms, loops, break/continue, nested functions, self tail calls)
+is a verified function. -/
+theorem verified_of_generated (isFn : Nat → Bool) (es : List Expr) (gs gs' : GS) (code : List Instr) (t : Bool)
+    (hok : Bal.okLs es = true) (hgs : Bal.GSok gs)
+    (h : compileBegin isFn {} es gs = Except.ok ((code, t), gs'))
+    (i : Nat) (tm : FnObj) (hi : gs.fns.length ≤ i) (htm : gs'.fns[i]? = some tm)
+    (E : St) (f : Nat) (hc : (fnOf E f).code = tm.code) (hp : (fnOf E f).params.length = tm.params.length)
+    (hva : (fnOf E f).varargs = tm.varargs) (hna : (fnOf E f).nargs = tm.nargs) (hl : E.loops = gs'.loops) :
+    ∃ ann, Bal.verify (fnB E f) ann = true := by
+  have := (Bal.program_verified isFn es gs gs' code t gs'.loops hok hgs (Bal.TOk.self gs gs') h).2 i tm hi htm
+  unfold Bal.FnVerified at this
+  unfold fnB
+  rw [hc, hp, hva, hna, hl]
+  exact this
+
+open ZygoVerif.LegacyTail in
+/-- Non-vacuity of `MatchedBody`: the concrete tail site `LegacyTail.atTailCall` (function 2 =
+`(defn f [n] … (f (- n 1)))` with the guard of fix C09-02, one operand pushed) as a stretch of
+zero steps: the verifier accepts the function as the checker sees it (`decide`), one value lies
+on top, `PrepareCall` succeeds as a `prepareFix` step. -/
+example : MatchedBody 2 1 atTailCall atTailCall where
+  vm := ⟨VmReach.refl, rfl, rfl, "f", 1, 0, 4, [.callExpr (.sym "f") [.sym "n"], .removeScope, .ret],
+    ⟨rfl, rfl, [.addFuncScope 2, .popStackPutEnv "n", .tailGuard "f" 5, .envToStack "n"], [], rfl, rfl⟩⟩
+  verified := by
+    apply Bal.check_verifies
+    have hb : Bal.checkB (fnB atTailCall 2) = true := by decide
+    unfold Bal.checkB at hb
+    split at hb
+    · rename_i u hu; cases u; exact hu
+    · cases hb
+  arity := rfl
+  args := ⟨[], rfl⟩
+  same := ⟨rfl, rfl⟩
+  run := Bal.Reach.refl _
+  prep := fun x nargs hf => prep_of_fixed 2 atTailCall atTailCall rfl ⟨rfl, rfl⟩ (by decide) rfl x nargs hf
+/-! ### The guard (fix C09-02): jump only while the name still denotes the running function -/
+
+/-- The guard falls through — and the tail sequence is taken, in constant space — exactly when
+the name, looked up before the operands are evaluated (as an ordinary call resolves its callee
+first), denotes the function object that is running. One step of the real loop; nothing but
+`pc` changes. -/
+theorem tail_guard_passes (st : CtlState) (fuel : Nat) (s : St) (p : Nat) (x : String) (args : List Expr)
+    (k : Nat) (argcode rest : List Instr) (sid : Nat)
+    (hat : At s p (selfTailCode x args k argcode ++ rest))
+    (hself : lexLookup s x = some (sid, .fn s.curfunc)) :
+    (runLoop (fuel + 2) st).run s = (runLoop (fuel + 1) st).run { s with pc := s.pc + 1 } ∧
+    At { s with pc := s.pc + 1 } (p + 1) (argcode ++ tailSeq x args.length k ++ [Instr.callExpr (.sym x) args] ++ rest) := by
+  have hat' : At s p (Instr.tailGuard x (argcode.length + k + 4) ::
+      (argcode ++ tailSeq x args.length k ++ [Instr.callExpr (.sym x) args] ++ rest)) := by
+    simpa [selfTailCode, List.append_assoc] using hat
+  exact ⟨runLoop_at (fuel + 1) st hat' (exec_tailGuard_self fuel s x _ sid hself),
+    hat'.next rfl rfl rfl⟩
+
+/-- **Fallback.** When the name no longer denotes the running function — it was rebound, at
+run time, to a non-function, to another function, to another closure of the same template, or
+unbound — the guard skips the operands, `PrepareCall`, every `RemoveScope` and the `Goto`: one
+step later the machine stands, with all four stacks, the scope table and the heap untouched,
+at the instruction `CallExpr x args` — the very instruction the generator emits for the same
+call in a non-tail position (`Tail.call_off`). From there on the tail call *is* the ordinary
+call: callee resolved again, operands evaluated by it, arity and type errors as usual, the
+value left on the stack, the enclosing forms' epilogues, `RemoveScope` of the function scope
+and `Return` still ahead. -/
+theorem tail_call_falls_back_to_ordinary_call (st : CtlState) (fuel : Nat) (s : St) (p : Nat) (x : String)
+    (args : List Expr) (k : Nat) (argcode rest : List Instr)
+    (hat : At s p (selfTailCode x args k argcode ++ rest))
+    (hother : ∀ sid, lexLookup s x ≠ some (sid, .fn s.curfunc)) :
+    (runLoop (fuel + 2) st).run s =
+      (runLoop (fuel + 1) st).run { s with pc := s.pc + ((argcode.length + k + 4 : Nat) : Int) } ∧
+    At { s with pc := s.pc + ((argcode.length + k + 4 : Nat) : Int) } (p + (argcode.length + k + 4))
+      (Instr.callExpr (.sym x) args :: rest) := by
+  have hat' : At s p (Instr.tailGuard x (argcode.length + k + 4) ::
+      (argcode ++ tailSeq x args.length k ++ [Instr.callExpr (.sym x) args] ++ rest)) := by
+    simpa [selfTailCode, List.append_assoc] using hat
+  refine ⟨runLoop_at (fuel + 1) st hat' (exec_tailGuard_other fuel s x _ hother), ?_⟩
+  obtain ⟨pre, post, hcode, hlen⟩ := hat.code
+  refine ⟨by simp [hat.pc], hat.compiled, ?_⟩
+  refine ⟨pre ++ ([Instr.tailGuard x (argcode.length + k + 4)] ++ argcode ++ tailSeq x args.length k), post, ?_, ?_⟩
+  · show (fnOf s s.curfunc).code = _
+    rw [hcode]
+    simp [selfTailCode, List.append_assoc]
+  · simp [tailSeq, hlen]; omega
+
+open ZygoVerif.LegacyTail in
+/-- `atTailCall` moved back to its guard, operands not yet pushed -/
+def atGuard : St := { atTailCall with pc := 2, data := [] }
+
+/-- the same, after someone outside the body did `(set f 7)` -/
+def atGuardRebound : St :=
+  { atGuard with scopes := [ { vars := [("f", intOfLit 7)] },
+                             { vars := [("n", intOfLit 3)], isFunction := true, myFunction := some 2 } ] }
+
+/-- the hypotheses of `tail_guard_passes` are satisfiable … -/
+example : At atGuard 2 (selfTailCode "f" [.sym "n"] 0 [.envToStack "n"] ++ [.removeScope, .ret]) ∧
+    lexLookup atGuard "f" = some (0, .fn atGuard.curfunc) :=
+  ⟨⟨rfl, rfl, [.addFuncScope 2, .popStackPutEnv "n"], [], rfl, rfl⟩, by decide⟩
+
+/-- … and so are those of `tail_call_falls_back_to_ordinary_call` -/
+example : At atGuardRebound 2 (selfTailCode "f" [.sym "n"] 0 [.envToStack "n"] ++ [.removeScope, .ret]) ∧
+    ∀ sid, lexLookup atGuardRebound "f" ≠ some (sid, .fn atGuardRebound.curfunc) := by
+  refine ⟨⟨rfl, rfl, [.addFuncScope 2, .popStackPutEnv "n"], [], rfl, rfl⟩, ?_⟩
+  intro sid h
+  have h7 : lexLookup atGuardRebound "f" = some (0, intOfLit 7) := by decide
+  rw [h7] at h
+  cases h
+
 /-! ### Non-vacuity of (c): a concrete tail site -/
 
 open ZygoVerif.LegacyTail in
@@ -281,9 +554,9 @@ open ZygoVerif.LegacyTail in
 operand pushed) satisfies every hypothesis of the segment lemma: `np = 1` operand above `d = 0`
 slots, `k = 0` extra scopes, the function scope above `L = [global]`, one return address. -/
 example : TailSite atTailCall "f" 1 0 1 0 1 [some 0] atTailCall.data where
-  code := ⟨3, [.removeScope, .ret], ⟨rfl, rfl, [.addFuncScope 2, .popStackPutEnv "n", .envToStack "n"], [], rfl, rfl⟩⟩
+  code := ⟨4, [.callExpr (.sym "f") [.sym "n"], .removeScope, .ret], ⟨rfl, rfl, [.addFuncScope 2, .popStackPutEnv "n", .tailGuard "f" 5, .envToStack "n"], [], rfl, rfl⟩⟩
   prep := fun n => by
-    have := exec_prepareCall_fixed n atTailCall "f" 1 0 2 (by decide) (by decide) rfl
+    have := exec_prepareCall_fixed n atTailCall "f" 1 rfl
     simpa using this
   operands := rfl
   scopes := ⟨[some 1], rfl, rfl⟩
